@@ -82,11 +82,23 @@ def lf2(facts, rep, rule='LF-2'):
         for i, s in enumerate(b.stmts(bb)):
             if s['k'] == 'assign' and 'pj' not in s['p'] and b.is_user(s['p']['l']) and s['r']['k'] == 'use' and \
                     b.locals[s['p']['l']]['ty'] == 'usize':
-                q = s['r']['o'].get('c') or s['r']['o'].get('m')
-                src = user_source(q['l']) if q is not None and 'pj' not in q else None
-                if src is not None and src != s['p']['l'] and b.locals[src]['ty'] == 'usize':
+                from .c05 import src_local
+                src = src_local(b, s['r']['o'])      # looks through temporaries and `let (pl, pr) = (l, r)` tuples
+                if src is not None and b.is_user(src) and src != s['p']['l'] and b.locals[src]['ty'] == 'usize':
                     saves.append((bb, s['p']['l'], src))
     key = 'backward_search|give-up-after-save'
+    if not clears:
+        # flag-less form: giving up = leaving the loop on the `upper < lower` edge towards a result that is built there
+        for g in eng_gd.guards(b):
+            if g['bb'] not in body:
+                continue
+            for tgt in (g['t'], g['f']):
+                if tgt not in body and b.term(g['bb'])['k'] == 'switch':
+                    reg = eng_gd.region(b, tgt)
+                    if h not in reg and any(s['k'] == 'assign' and s['r']['k'] == 'agg' and
+                                            (s['r'].get('adt') or '').endswith('BackwardSearchResult') and
+                                            s['r'].get('variant') == 'Partial' for x in reg for s in b.stmts(x)):
+                        clears.append((tgt, None))
     if not clears or len(saves) < 2:
         rep.missing(rule, key, 'flag clears (%d) / interval saves (%d) not identified' % (len(clears), len(saves)))
         return
